@@ -73,7 +73,7 @@ func (n *InfluxQLNode) newGroup(first edge.PointMeta) edge.ForwardReceiver {
 		name:       first.Name(),
 		groupInfo:  first.GroupInfo(),
 		time:       first.Time(),
-		pointTimes: n.n.PointTimes || n.isStreamTransformation,
+		pointTimes: (n.n.PointTimes && n.selectsPoints()) || n.isStreamTransformation,
 	}
 	g := influxqlGroup{
 		n:  n,
@@ -85,6 +85,14 @@ func (n *InfluxQLNode) newGroup(first edge.PointMeta) edge.ForwardReceiver {
 		}
 	}
 	return &g
+}
+
+// selectsPoints reports whether the function emits points of its input (or, for holtWinters,
+// points with times of their own). Only those honor usePointTimes,
+// aggregation functions always use the batch time.
+func (n *InfluxQLNode) selectsPoints() bool {
+	rc := n.n.ReduceCreater
+	return rc.IsSimpleSelector || rc.TopBottomCallInfo != nil || n.n.Method == "holtWinters"
 }
 
 type influxqlGroup struct {
